@@ -1,4 +1,4 @@
-HOOK_COMMITS = ['da136f3', '8dfdeaa']  # QLIBC_VERIF_MAX_LINESIZE (qaconf.c), QLIBC_VERIF_HASHARR_NAMESIZE/DATASIZE (qhasharr.h)
+HOOK_COMMITS = ['da136f3', '8dfdeaa', '7714bae']  # QLIBC_VERIF_MAX_LINESIZE (qaconf.c), QLIBC_VERIF_HASHARR_NAMESIZE/DATASIZE (qhasharr.h), QLIBC_VERIF_MAX_MUTEX_LOCK_WAIT (qinternal.h)
 NA = lambda i, r: {'property_id': i, 'reason': r}
 _T = 'CBMC 6.11 bounded symbolic execution of the real translation units (goto-cc build from /repo on every run); '
 _NOTE = ('Trusted base: CBMC 6.11 C semantics, its SAT/SMT back ends and its models of malloc/free/memcpy/strlen etc.; the harness stubs listed in the evidence file; '
@@ -36,8 +36,8 @@ CHECKS = [
  C('C12', 'per entry point: caller buffers scribbled+freed before read-back, returned copies checked with __CPROVER_same_object and after container release; SAT',
    'Containers keep private copies and hand out independent copies, for every entry point of the covered containers and all byte contents within the bounds.'),
  C('C13', 'interleaving injection: single-threaded harness, lock model with scheduling hook, the schedule point of the second thread\'s whole call is a solver variable; outcomes compared with both sequential orders on an ideal model; SAT',
-   'For two overlapping calls (one per logical thread) on a thread-safe vector, list, list table, hash table or tree table, results and final contents equal one of the two sequential orders for every scheduling point at lock-boundary granularity and every argument. More threads/calls, walks under the lock and memory-model effects are outside the claim.'),
- C('C14', 'every public function on a thread-safe container under a counting lock model with an allocation failure at each position; SAT',
+   'For two overlapping calls (one per logical thread) on a thread-safe vector, list, list table, hash table or tree table, results and final contents equal one of the two sequential orders for every scheduling point at lock-boundary granularity and every argument. The lock primitive (Q_MUTEX_ENTER/LEAVE) is checked contended in isolation: a thread leaves ENTER only as owner, the forced unlock never releases another thread\'s hold (spin bound scaled by a guarded hook). More threads/calls, walks under the lock and memory-model effects are outside the claim.'),
+ C('C14', 'every public function on a thread-safe container (and the rotating logger qlog.c) under a counting lock model with an allocation failure at each position; an unlock without a matching lock is itself an assertion failure (= entering with the lock held and returning one level lower); SAT',
    'The lock depth after each call equals the depth before it on every path reachable by arguments, state or allocation failure within the bounds.'),
  C('C15', 'allocation-failure position enumerated by the driver (1st..3rd, all-from-k), everything else symbolic; failure => state equals pre-state ghost; SAT',
    'For every covered operation and failure position the call either succeeds with the ideal effect or reports failure with contents unchanged, invariant intact, nothing leaked.'),
